@@ -574,6 +574,7 @@ def execute(sc):
             'build', w.p(out_rel), '--lua', main_arg]
         if how == 'arg':
             argv += ['--lua-path', lp_value]
+        shared_ns = None
         table, err = model_traverse(sc2, w, lp_value)
         expect_fail = err is not None
         if fk == 'MALFORMED' and err is None:
@@ -642,6 +643,37 @@ def execute(sc):
             core.bump(res['probes'], 'earlier-failing-build-with-load-path')
             w.err.seek(0)
             w.err.truncate(0)
+        elif sc.get('warmup') == 'same-args-other-env' and how != 'arg' \
+                and hasattr(tool, '_get_argparser'):
+            # a caller that drives the command's function itself used this
+            # very arguments object before, for another OUT, while
+            # PICO8_LUA_PATH named a directory of same-named decoy packages
+            for frm in [-1] + list(range(len(sc2['pkgs']))):
+                f = sc2['main'] if frm == -1 else sc2['pkgs'][frm]
+                for it in f['items']:
+                    if it['t'] == 'req':
+                        nm = req_name(sc2, frm, it['pkg']).lstrip('@')
+                        w.put('proj/decoys/' + nm + '.lua',
+                              b'decoy_package=1\n')
+            shared_ns = tool._get_argparser().parse_args(args=argv)
+            saved_lp = os.environ.get('PICO8_LUA_PATH')
+            os.environ['PICO8_LUA_PATH'] = '%s/?.lua;?;?.lua' % w.p(
+                'proj/decoys')
+            real_out = shared_ns.filename
+            shared_ns.filename = w.p('warm/out.p8')
+            w.mkdir('warm')
+            try:
+                shared_ns.func(shared_ns)
+            except BaseException:
+                pass
+            shared_ns.filename = real_out
+            if saved_lp is None:
+                os.environ.pop('PICO8_LUA_PATH', None)
+            else:
+                os.environ['PICO8_LUA_PATH'] = saved_lp
+            core.bump(res['probes'], 'arguments-object-used-before')
+            w.err.seek(0)
+            w.err.truncate(0)
         elif sc.get('warmup'):
             # an unrelated project is built first in the same process: nothing
             # of it may show up in (or influence) the build under test
@@ -665,7 +697,10 @@ def execute(sc):
         try:
             if tracer is not None:
                 sys.settrace(tracer.global_trace)
-            rc = tool.main(argv)
+            if shared_ns is not None:
+                rc = shared_ns.func(shared_ns)
+            else:
+                rc = tool.main(argv)
         except BaseException as e:
             exc = e
         finally:
@@ -973,6 +1008,8 @@ def generate(rng, prop, tier, index):      # noqa: F811
         sc['traced'] = True
     if index % 5 == 2:
         sc['warmup'] = True if index % 10 == 2 else 'failing-with-path'
+        if index % 20 == 7:
+            sc['warmup'] = 'same-args-other-env'
     if index % 5 == 4:
         sc['rebuild'] = True
     sc['global_flags'] = [[], [], [], ['--debug'], ['-q']][index % 5] \
@@ -1123,4 +1160,4 @@ REQUIRED_PROBES = {
 }
 
 
-RULE_MORE = {'C14': ' Added in the build rounds: unusual package names (dots, spaces, quotes, backslashes) in three quoting styles, require() in 24 syntactic positions and inside game-loop functions (to packages nothing else reaches, possibly missing), functions whose names merely start with a game-loop name, CRLF packages with multi-line strings (long-string contents compared exactly), packages in a directory of their own name (entry with two ?), a vendor package behind a path component that is a file, global flags, and earlier builds in the same process (unrelated project, the same files with older contents, a failing build whose --lua-path names same-named decoys).'}
+RULE_MORE = {'C14': ' Added in the build rounds: unusual package names (dots, spaces, quotes, backslashes) in three quoting styles, require() in 24 syntactic positions and inside game-loop functions (to packages nothing else reaches, possibly missing), functions whose names merely start with a game-loop name, CRLF packages with multi-line strings (long-string contents compared exactly), packages in a directory of their own name (entry with two ?), a vendor package behind a path component that is a file, global flags, and earlier builds in the same process (unrelated project, the same files with older contents, a failing build whose --lua-path names same-named decoys). Round 6: require names holding a byte that is not valid UTF-8 next to decoy files named without it (must fail); OUT\'s previous code starting with title comments in line, block and multi-line block form; comments in front of the package table are not counted as code; the arguments object of the build used before, for another OUT, under another PICO8_LUA_PATH (command function called directly).'}
